@@ -33,6 +33,11 @@ claim("C09",
   "Value-level equality over nested snapshot histories and trie-level copy independence (CopyTrie) are not decided." + TB,
   STATIC + "must-pass-through CFG paths from the field-store index (K2), entry/undo sibling table (K5), field coverage and alias check on SSA values (K4), who-may-write/call (K3)")
 
+claim("C10",
+  "Three structural NECESSARY conditions only (the canonical-root clause itself is not decidable statically here and is not claimed): (B1) no stale cached hash after mutation - every node literal in Trie.insert/delete takes flags from newFlag(), every in-place child write is on a copy()/fresh node whose flags are reset on the same path, nodeFlag.hash has no writer outside hasher/decoder/expander; (B2) every SecureTrie accessor addresses the inner trie with the hashed key; (B3) VerifyProof decodes and uses a proof node only after its bytes hashed to the expected hash, the first expected hash is the root and the next one is the hashNode child of the decoded node (provenance). A genuine defect in B3 was repaired (962bded).",
+  "Root independence from operation order, last-write lookup and iteration order are invariants of a recursive structure over operation histories: NOT decided. Keccak and the node encoding are trusted." + TB,
+  STATIC + "composite-literal/field-store coverage (K4), same-path ordering (K2), guard dominance with provenance (K1), sibling agreement (K5), who-may-write (K3)")
+
 for _p in ["C%02d" % i for i in range(1, 21)]:
     if _p not in CLAIMED:
         na(_p, PENDING)
